@@ -4,7 +4,8 @@
 use crate::au::*;
 use crate::util::Ctx;
 
-const CODES: [u8; 6] = [0x01, 0x28, 0x2E, 0x7F, 0x30, 0xF2];
+// every family of status code, and 0x00 (`Ctap2Error::Ok` / `U2FError::Success` returned as an error)
+const CODES: [u8; 7] = [0x01, 0x28, 0x2E, 0x7F, 0x30, 0xF2, 0x00];
 
 fn make_variants(ctx: &mut Ctx, rp: &str, other: &[u8]) -> Vec<MakeOp> {
     let mut v = vec![];
@@ -46,7 +47,7 @@ pub fn gen(ctx: &mut Ctx) {
                 } }
                 // pairs
                 for (a, b) in [(0usize, 1usize), (0, 2), (1, 2), (1, 3), (2, 3)] {
-                    let mut f = vec![None; 4]; f[a] = Some(CODES[(a + vi) % 6]); f[b] = Some(CODES[(b + vi + 1) % 6]);
+                    let mut f = vec![None; 4]; f[a] = Some(CODES[(a + vi) % 7]); f[b] = Some(CODES[(b + vi + 1) % 7]);
                     let mut s = step(Op::Make(m.clone())); s.faults = f;
                     let p = preload(ctx);
                     let w = World { kind: *kind, counter_on, id_len: 16, hm, preload: p };
@@ -133,5 +134,7 @@ pub fn gen(ctx: &mut Ctx) {
             }
         }
     }
+    // ---- the U2F registration path saves through the same store: its refusal is an error there too
+    crate::c17::store_failures(ctx, "C07");
     ctx.stat_n("c07.cases", case_no as u64);
 }
